@@ -168,6 +168,28 @@ def array_size(node, tu):
     return int(m.group(1)) if m else None
 
 
+def param_array_size(node, f, funcs):
+    """destination is a pointer parameter of f: the smallest fixed array any caller passes for it (None if some caller passes
+    something else, or if there is no caller)"""
+    n = strip(node, casts=True)
+    if n.get('kind') != 'DeclRefExpr' or n.get('referencedDecl', {}).get('kind') != 'ParmVarDecl':
+        return None
+    params = [p.get('id') for p in astdb.fn_params(f)]
+    if n['referencedDecl'].get('id') not in params:
+        return None
+    idx = params.index(n['referencedDecl']['id'])
+    sizes = []
+    for tu2, g in funcs:
+        for c in walk(astdb.fn_body(g)):
+            if c.get('kind') == 'CallExpr' and astdb.callee_name(c) == f['name']:
+                a = astdb.call_args(c)
+                sz = array_size(a[idx], tu2) if idx < len(a) else None
+                if sz is None:
+                    return None
+                sizes.append(sz)
+    return min(sizes) if sizes else None
+
+
 def check_formatted_writes(chk, funcs):
     n = 0
     for tu, f in funcs:
@@ -182,6 +204,8 @@ def check_formatted_writes(chk, funcs):
                 loc = astdb.loc_str(c)
                 site = '%s:sprintf' % f['name']
                 size = array_size(args[di], tu)
+                if size is None:
+                    size = param_array_size(args[di], f, funcs)
                 fmt = astdb.string_value(args[fi])
                 if size is None or fmt is None:
                     chk.fail('R10.1', site, '%s at %s writes to %s with format %s: destination size or format is not a compile-time constant'
